@@ -213,6 +213,15 @@ def curvature_probes(mon: Monitor) -> None:
         for kw in ({}, {"padding": 0}, {"padding": 2, "align": 16}, {"align": 1}, {"align": 8}, {"padding": 1, "align": 2}):
             call(compute_reproject_roi, src, dst, **kw)
             mon.obs["curvature_probes"] += 1
+        # the same two rasters after they have been used for something else: looked at (outline with few points, footprint, ...) and planned against a neighbour in their
+        # own CRS with a sub-pixel shift (the non-paste same-CRS plan); then the cross-CRS plan again, on the same objects
+        s2, d2 = GeoBox(src.shape, src.affine, src.crs), GeoBox(dst.shape, dst.affine, dst.crs)
+        gen.warm(s2, full=False), gen.warm(d2, full=False)
+        call(compute_reproject_roi, GeoBox(d2.shape, d2.affine * Affine.translation(0.3, 0.2), d2.crs), d2)
+        call(compute_reproject_roi, s2, GeoBox(s2.shape, s2.affine * Affine.translation(0.3, 0.2), s2.crs))
+        for kw in ({}, {"align": 8}):
+            call(compute_reproject_roi, s2, d2, **kw)
+            mon.obs["curvature_probes_on_used_objects"] += 1
 
 
 def reverse_curvature_probes(mon: Monitor) -> None:
@@ -233,6 +242,13 @@ def reverse_curvature_probes(mon: Monitor) -> None:
         for kw in ({}, {"align": 1}, {"align": 8}, {"padding": 1, "align": 2}, {"padding": 3, "align": 8}):
             call(compute_reproject_roi, src, dst, **kw)
             mon.obs["reverse_curvature_probes"] += 1
+        # and on objects that have been used before (see curvature_probes)
+        s2, d2 = GeoBox(src.shape, src.affine, src.crs), GeoBox(dst.shape, dst.affine, dst.crs)
+        gen.warm(s2, full=False), gen.warm(d2, full=False)
+        call(compute_reproject_roi, GeoBox((40, 50), d2.affine * Affine.translation(0.3, 0.2), d2.crs), d2)
+        for kw in ({}, {"align": 8}):
+            call(compute_reproject_roi, s2, d2, **kw)
+            mon.obs["curvature_probes_on_used_objects"] += 1
 
 
 def antimeridian_edge_probes(mon: Monitor) -> None:
